@@ -563,8 +563,15 @@ def run_c12(chk):
     cand = dedupe([y for h in h1 + h2 for x in lives_of(h) for y in prefixes(x)] + [x for h in h3 for x in lives_of(h)])
     chk.add(transitions=r1.generated + r2.generated + r3.generated, states=r1.distinct + r2.distinct,
             histories_enumerated=len(h1) + len(h2), histories_simulated=len(h3), candidate_lives=len(cand))
-    must = [x for x in cand if len(x["events"]) == 1 and x["events"][0]["act"] == "Generate"
-            and x["events"][0]["route"] == 0 and x["seed"] == 0]
+    def gen0(e, opt=None):
+        return e["act"] == "Generate" and e["route"] == 0 and (opt is None or e["opt"] == opt)
+
+    # the plain observation of every (template, options); and for every template one that differs from it in the
+    # hash seed alone and one that differs in UFL's counters alone (so a rejected write names its cause)
+    must = [x for x in cand if len(x["events"]) == 1 and gen0(x["events"][0]) and x["seed"] == 0]
+    must += [x for x in cand if len(x["events"]) == 1 and gen0(x["events"][0], "default") and x["seed"] == seeds[1]]
+    must += [x for x in cand if len(x["events"]) == 2 and x["seed"] == 0 and x["events"][0] == {"act": "CreateJunk", "kind": "mesh"}
+             and gen0(x["events"][1], "default")]
     lives, seen, spent = select(cand, 80 if quick else 2000, must)
     chk.add(context_items_covered=len(seen))
     lives, events, where, viol = execute_and_judge(chk, "C12", lives, 24 if quick else 300, "c12")
